@@ -1,14 +1,18 @@
 package consul
 
 import (
+	"bytes"
+	"errors"
 	"fmt"
 	"log"
 	"net"
 	"os"
+	"reflect"
 	"runtime"
 	"strconv"
 	"strings"
 
+	"github.com/fabiolb/fabio/route"
 	"github.com/hashicorp/consul/api"
 )
 
@@ -94,16 +98,60 @@ func (r routecmd) build() []string {
 				cfg += " weight " + weight
 			}
 			if len(svctags) > 0 {
-				cfg += " tags " + strconv.Quote(strings.Join(svctags, ","))
+				cfg += " tags \"" + strings.Join(svctags, ",") + "\""
 			}
 			if len(ropts) > 0 {
-				cfg += " opts " + strconv.Quote(strings.Join(ropts, " "))
+				cfg += " opts \"" + strings.Join(ropts, " ") + "\""
+			}
+
+			// The commands of all services end up in one config. Emit the
+			// command only if it means this route and nothing else.
+			if err := denotes(cfg, name, route, dst, weight, svctags, ropts); err != nil {
+				log.Printf("[WARN] consul: Ignoring tag %q of service %q. %s", tag, name, err)
+				continue
 			}
 
 			config = append(config, cfg)
 		}
 	}
 	return config
+}
+
+// denotes checks that the route command language can express the route
+// which cmd is meant to add: fabio's own parser must read cmd as exactly
+// one 'route add' command with the given service, source, destination,
+// weight, tags and options and a routing table must accept it. Anything
+// else, e.g. a tag with a double quote, a tab or a newline or a weight
+// which is not a number, would break or alter the routes of all services.
+func denotes(cmd, service, src, dst, weight string, tags, opts []string) error {
+	want := &route.RouteDef{Cmd: route.RouteAddCmd, Service: service, Src: src, Dst: dst, Tags: tags}
+	if weight != "" {
+		w, err := strconv.ParseFloat(weight, 64)
+		if err != nil {
+			return fmt.Errorf("invalid weight %q", weight)
+		}
+		want.Weight = w
+	}
+	if len(opts) > 0 {
+		want.Opts = map[string]string{}
+		for _, o := range opts {
+			if p := strings.SplitN(o, "=", 2); len(p) == 2 {
+				want.Opts[p[0]] = p[1]
+			} else {
+				want.Opts[o] = ""
+			}
+		}
+	}
+
+	defs, err := route.Parse(bytes.NewBufferString(cmd))
+	if err != nil {
+		return err
+	}
+	if len(defs) != 1 || !reflect.DeepEqual(defs[0], want) {
+		return errors.New("tag cannot be expressed as a route command")
+	}
+	_, err = route.NewTable(bytes.NewBufferString(cmd))
+	return err
 }
 
 // parseURLPrefixTag expects an input in the form of 'tag-host/path[ opts]'
